@@ -14,3 +14,11 @@ Definition for_range {A : Type} (lo hi : Z) (acc : A) (f : Z -> A -> A) : A :=
 Definition Zneb (a b : Z) : bool := negb (Z.eqb a b).
 
 Definition zget (v : list Z) (i : Z) : Z := nth (Z.to_nat i) v 0.
+
+(* `while c: body` with explicit fuel; exhausting the fuel returns the current state *)
+Fixpoint while_fuel {A : Type} (fuel : nat) (c : A -> bool) (f : A -> A) (x : A) : A :=
+  match fuel with
+  | O => x
+  | Datatypes.S n => if c x then while_fuel n c f (f x) else x
+  end.
+Definition WHILE_FUEL : nat := N.to_nat 100000.
